@@ -196,7 +196,9 @@ def host_cases(draw, tier):
         old = host['gates'][k][0]
         r = lambda x: '' if x == old else x
         case['host'] = dict(host, inputs=[r(x) for x in host['inputs']], outputs=[r(x) for x in host['outputs']],
-                            gates=[[r(l), t, [r(o) for o in ops]] for l, t, ops in host['gates']])
+                            gates=[[r(l), t, [r(o) for o in ops]] for l, t, ops in host['gates']], style='mixed')
+        if case['host_route'].get('kind') == 'bench':
+            case['host_route'] = dict(case['host_route'], kind='emplace')  # (no bench text for the empty label)
         for key in ('a', 'b'):
             if key in case:
                 pos = draw(st.integers(0, len(case[key]['idx']) - 1))
